@@ -12,7 +12,7 @@ git -C "$L/repo" checkout -q --detach "$(git -C /repo rev-parse HEAD)"
 for item in "$@"; do
   sid="${item%%:*}"; patch="${item#*:}"; prop="${sid:0:3}"
   git -C "$L/repo" checkout -q -- . ; git -C "$L/repo" clean -fdq
-  if ! git -C "$L/repo" apply "$patch"; then echo "$sid APPLY-FAILED" > /tmp/lanes/results/$sid.txt; continue; fi
+  if ! git -C "$L/repo" apply "$patch" 2>/dev/null && ! patch -p1 -s -d "$L/repo" < "$patch" >/dev/null 2>&1; then echo "$sid APPLY-FAILED" > /tmp/lanes/results/$sid.txt; continue; fi
   t0=$(date +%s)
   ( cd "$L/verif" && VERIF_REPO="$L/repo" timeout 3000 bin/check "$prop" "$tier" ) > /tmp/lanes/results/$sid.out 2>&1
   rc=$?
